@@ -42,8 +42,10 @@ MUTANTS = [
      "func (a *ConsumeState) finalizeError(err error) {\n\tif !a.complete {", "func (a *ConsumeState) finalizeError(err error) {\n\tif true {"),
     ("error-on-segment-does-not-finalize (complete guard dropped in handleData)", SEG,
      "\tif state.complete {\n\t\treturn\n\t}\n\n\tif args.Result == ndn.InterestResultError {", "\tif args.Result == ndn.InterestResultError {"),
-    ("Content()-does-not-advance (cumulative)", CONSUME,
+    ("Content()-does-not-advance (equivalent: the buffers are freed, the old range joins to nothing)", CONSUME,
      "\ta.wnd[0] = a.wnd[1]\n", "\n"),
+    ("Content()-cumulative (neither frees nor advances)", CONSUME,
+     "\tfor i := a.wnd[0]; i < a.wnd[1]; i++ {\n\t\ta.content[i] = nil // gc\n\t}\n\n\ta.wnd[0] = a.wnd[1]\n", "\n"),
     ("Content()-skips-first-buffer", CONSUME,
      "buf := a.content[a.wnd[0]:a.wnd[1]].Join()", "buf := a.content[min(a.wnd[0]+1, a.wnd[1]):a.wnd[1]].Join()"),
     ("retries-not-decremented", EXPR,
@@ -55,8 +57,10 @@ MUTANTS = [
      "if res.Result == ndn.InterestResultTimeout {", "if res.Result == ndn.InterestResultTimeout && args.Retries < 0 {"),
     ("findNewest > -> <", MEM, "if cl.version > known.version {", "if cl.version < known.version || known.wire == nil {"),
     ("findNewest-first-child", MEM, "if cl.version > known.version {", "if known.wire == nil && cl.wire != nil {"),
-    ("memory-remove-keeps-wire", MEM,
+    ("memory-remove-keeps-wire (equivalent for leaf packets: the parent prunes the node)", MEM,
      "\tif len(name) == 0 {\n\t\tn.wire = nil\n\t\tn.version = 0\n", "\tif len(name) == 0 {\n"),
+    ("memory-remove-exact-is-noop", MEM,
+     "\tif len(name) == 0 {\n\t\tn.wire = nil\n\t\tn.version = 0\n", "\tif len(name) == 0 {\n\t\tif !prefix {\n\t\t\treturn false\n\t\t}\n\t\tn.wire = nil\n\t\tn.version = 0\n"),
     ("memory-remove-prefix-ignores-flag (always subtree)", MEM,
      "\t\tif prefix {\n\t\t\tn.children = nil // prune subtree", "\t\tif true {\n\t\t\tn.children = nil // prune subtree"),
     ("memory-commit-drops-transaction", MEM,
